@@ -135,7 +135,7 @@ func Load(repoDir, goarch string, tests bool) (*Program, error) {
 		if fn.Blocks == nil && fn.Synthetic == "" {
 			// external (no body)
 		}
-		if fn.Synthetic != "" && fn.Syntax() == nil {
+		if fn.Synthetic != "" && fn.Syntax() == nil && !PromoWrapper[fn] {
 			// wrappers/thunks: analysed through their targets
 		} else {
 			file := ""
@@ -299,7 +299,7 @@ func (p *Program) funcByDeclaredName(pkg, name string) *ssa.Function {
 		}
 		fn = p.Prog.MethodValue(sel)
 		// Do not return a promoted-method wrapper as if it were declared on T.
-		if fn != nil && fn.Synthetic != "" {
+		if fn != nil && fn.Synthetic != "" && !PromoWrapper[fn] {
 			return nil
 		}
 	} else {
